@@ -655,3 +655,89 @@ func H_C03_disableSiblings(kind, depth int) {
 		verifAssert(inherited[i].(*RefExp).Id == "OUTER"+string(rune('0'+i)), "the inherited conditions are not modified")
 	}
 }
+
+// ---- C02 / C08: a preflight call cannot depend on another call ----
+
+var c02PreflightBindings = []struct {
+	exp     string
+	hasCall bool
+}{
+	{"A.y", true},
+	{"[A.y]", true},
+	{"[1, A.y]", true},
+	{`{"k": A.y}`, true},
+	{"self.x", false},
+	{"[self.x, 2]", false},
+	{"3", false},
+}
+
+// H_C02_preflightBindings(b): every call of a pipeline waits for the
+// pipeline's preflight calls; a preflight call whose input (kind 0..6: a
+// reference to another call's output directly, inside an array or a map
+// literal; a pipeline input; a literal) depended on another call would wait
+// for a call that waits for it.
+//
+//	C02/C08: such a program is rejected at compile time (mrp would otherwise
+//	     recurse through the dependency cycle until its stack overflows);
+//	     preflight inputs bound to pipeline inputs and literals are accepted.
+func H_C02_preflightBindings(b int) {
+	bind := c02PreflightBindings[b]
+	tIn := "int"
+	if bind.exp[0] == '[' {
+		tIn = "int[]"
+	} else if bind.exp[0] == '{' {
+		tIn = "map<int>"
+	}
+	src := `stage A(
+    in  int x,
+    out int y,
+    src comp "bin",
+)
+
+stage PF(
+    in  ` + tIn + ` v,
+    src comp "bin",
+)
+
+pipeline P(
+    in  int x,
+    out int y,
+)
+{
+    call A(
+        x = self.x,
+    )
+
+    call PF(
+        v = ` + bind.exp + `,
+    ) using (
+        preflight = true,
+    )
+
+    return (
+        y = A.y,
+    )
+}
+
+call P(
+    x = 1,
+)
+`
+	var parser Parser
+	_, _, ast, err := parser.ParseSourceBytes([]byte(src), "/m/pf.mro", nil, false)
+	verifCover("preflight binding compiled")
+	if bind.hasCall {
+		verifCover("preflight bound to a call")
+		if verifKnown("C02-preflight-call-inside-collection") && bind.exp != "A.y" {
+			// known finding: only a direct reference is rejected
+			return
+		}
+		verifAssert(err != nil, "C02/C08: a preflight call whose input depends on another call's output (directly or inside a collection) is rejected at compile time")
+		return
+	}
+	verifAssert(err == nil, "C02: a preflight call bound to pipeline inputs or literals is accepted")
+	if err == nil {
+		_, gerr := ast.MakePipelineCallGraph("ID.", ast.Call)
+		verifAssert(gerr == nil, "C02: its call graph resolves")
+	}
+}
